@@ -127,8 +127,12 @@ extern "C" VERIF_NOINSTR void __cyg_profile_func_enter(void *const fn, void *)
 {
   if (in_hook) return;
   in_hook = true;
-  if (fn == addr(&fcppt::log::impl::find_child) || fn == addr(&fcppt::log::impl::find_child_const) ||
-      fn == addr(&fcppt::log::impl::find_or_create_child) ||
+  // explicit signatures: an added overload must not make these addresses ambiguous (= a kernel that no longer compiles)
+  using walk_fn = decltype(fcppt::log::impl::find_or_create_child(std::declval<fcppt::reference<ctree>>(), std::declval<fcppt::log::name const &>())) (*)(fcppt::reference<ctree>, fcppt::log::name const &);
+  using find_fn = decltype(fcppt::log::impl::find_child(std::declval<fcppt::reference<ctree>>(), std::declval<fcppt::log::name const &>())) (*)(fcppt::reference<ctree>, fcppt::log::name const &);
+  using cfind_fn = decltype(fcppt::log::impl::find_child_const(std::declval<fcppt::reference<ctree const>>(), std::declval<fcppt::log::name const &>())) (*)(fcppt::reference<ctree const>, fcppt::log::name const &);
+  if (fn == addr(static_cast<find_fn>(&fcppt::log::impl::find_child)) || fn == addr(static_cast<cfind_fn>(&fcppt::log::impl::find_child_const)) ||
+      fn == addr(static_cast<walk_fn>(&fcppt::log::impl::find_or_create_child)) ||
       fn == addr(&fcppt::container::tree::pre_order<ctree>::iterator::increment))
     verif_probe_walk();
   else if (
